@@ -256,12 +256,12 @@ def _loss_run_impl(kind, ops, seed):
         # interleaved use (part of the history): every object that exists is evaluated after every operation, so that
         # anything computed lazily on first use exists BEFORE later copies / set_scale calls
         for ob in objs:
-            try:
-                ob(x)
-                if ob.has_prox and float(ob.scale) > 0:
-                    ob.prox(x, 0.25)
-            except Exception:  # noqa: BLE001  (history calls are not the subject)
-                pass
+            for use in (lambda: ob(x), lambda: ob.grad(x), lambda: ob.prox(x, 0.25) if (ob.has_prox and float(ob.scale) > 0) else None,
+                        lambda: ob.hessian(x) if hasattr(ob, "hessian") else None):
+                try:
+                    use()  # eval / grad / prox / hessian BEFORE the next rescale (history calls are not the subject)
+                except Exception:  # noqa: BLE001
+                    pass
     base = mk(1.0)
     b = float(base(x))
     g = np.asarray(base.grad(x))
@@ -1307,6 +1307,64 @@ def _corr_reuse(ctx):
             _reuse_case(ctx, nm, nsteps)
 
 
+def _live_pair_builders():
+    """optimisers built from DEFAULTS only (no helper object, no options passed): name -> make(k) for problem k"""
+    import jax.numpy as jnp
+    from scico import functional as F
+    from scico import linop, loss, optimize
+
+    C = lambda: linop.FiniteDifference((5,), input_dtype=np.float64, circular=True)  # noqa: E731
+
+    def fdiag(P):
+        return loss.SquaredL2Loss(y=P["y"], A=linop.Diagonal(P["d"]), scale=P["scale"])
+
+    def fid(P):
+        return loss.SquaredL2Loss(y=P["y"], scale=P["scale"])
+
+    return {
+        "PGM": lambda k, P: optimize.PGM(f=fdiag(P), g=P["g"], L0=P["L0"], x0=P["x0"]),
+        "AcceleratedPGM": lambda k, P: optimize.AcceleratedPGM(f=fdiag(P), g=P["g"], L0=P["L0"], x0=P["x0"]),
+        "ADMM": lambda k, P: optimize.ADMM(f=fdiag(P), g_list=[P["g"]], C_list=[C()], rho_list=[P["rho"]], x0=P["x0"]),
+        "LinearizedADMM": lambda k, P: optimize.LinearizedADMM(f=fid(P), g=P["g"], C=C(), mu=0.1 / (1 + k), nu=0.02 / (1 + k), x0=P["x0"]),
+        "PDHG": lambda k, P: optimize.PDHG(f=fid(P), g=P["g"], C=C(), tau=0.2 / (1 + k), sigma=0.2 / (1 + k), x0=P["x0"]),
+        "ProximalADMM": lambda k, P: optimize.ProximalADMM(f=fid(P), g=P["g"], A=C(), rho=1.0 + k, mu=4.5 * (1 + k), nu=1.5 * (1 + k), x0=P["x0"]),
+    }
+
+
+def _corr_live_pair(ctx):
+    """two LIVE optimisers built from defaults with different data and parameters, stepped alternately, against each one
+    built and stepped alone: nothing that a default-constructed optimiser holds may be shared with another one"""
+    for name, mk in _live_pair_builders().items():
+        case = {"kind": "live-pair", "optimiser": name, "schedule": "A=mk(0); B=mk(1); A.step; B.step; A.step; B.step"}
+        err = None
+        try:
+            A, B = mk(0, _problem(0)), mk(1, _problem(1))
+            for _ in range(2):
+                A.step()
+                B.step()
+            got = [_state_of(A), _state_of(B)]
+            want = []
+            for k in (0, 1):
+                S = mk(k, _problem(k))
+                S.step()
+                S.step()
+                want.append(_state_of(S))
+        except Exception as e:  # noqa: BLE001
+            err = repr(e)[:200]
+        ctx.case(case, ("live-pair", name))
+        ctx.count("live-pair:" + name)
+        rt = 1e-4 if name == "ADMM" else 1e-9
+        bad = err is not None or any(len(a) != len(b) or any(not common.allclose(x, y, rtol=rt) for x, y in zip(a, b)) for a, b in zip(got, want))
+        if bad:
+            def oracle(c):
+                if err is not None:
+                    return {"case": c, "raised": err}
+                return {"case": c, "interleaved": [[v.tolist() for v in st] for st in got], "each_alone": [[v.tolist() for v in st] for st in want],
+                        "what": "two optimisers built from defaults influence each other: stepped alternately they differ from the same optimisers run alone"}
+
+            ctx.disagree("cache.live-pair", case, err or "interleaved differs from isolated", "same iterates", oracle=oracle)
+
+
 def _corr_args(ctx):
     """(a) every object handed to a constructor / method is deep-snapshotted before and compared after; a SECOND optimiser built
     from the very same argument objects must behave like the first"""
@@ -1584,7 +1642,8 @@ def _corr_exhaustive(ctx, model):
     for cls in ("SquaredL2Loss(Diag)",) + (("PoissonLoss", "SquaredL2Loss(Matrix)") if ctx.thorough else ()):
         for ln in range(1, Lh + 1):
             alphabet = [{"k": "mul", "i": 0, "c": 3.0}, {"k": "div", "i": 0, "c": 4.0}, {"k": "set", "i": 0, "s": 0.25}, {"k": "rmul", "i": -1, "c": 0.5}, {"k": "new", "s": 1.5}]
-            for ops in itertools.product(alphabet, repeat=ln):
+            # quick tier: the full alphabet up to length 2, the three operations on the first object up to length 3
+            for ops in itertools.product(alphabet if (ctx.thorough or ln <= 2) else alphabet[:3], repeat=ln):
                 seq, n = [{"k": "new", "s": 2.0}], 1
                 for o in ops:
                     o = dict(o)
@@ -1595,7 +1654,8 @@ def _corr_exhaustive(ctx, model):
                         n += 1
                 _loss_case(ctx, model, {"kind": "loss", "cls": cls, "ops": seq, "seed": 7})
                 n_loss += 1
-    scope["loss"] = {"alphabet": 5, "max_length": Lh, "histories": n_loss}
+    scope["loss"] = {"alphabet": 5, "max_length": Lh, "histories": n_loss, "uses_between_operations": ["eval", "grad", "prox", "hessian"],
+                     "note": "quick: full alphabet to length 2, operations on the first object to length 3"}
     if ctx.thorough:
         # jit slots: every op sequence up to length 3, all variants and option values
         n_jit = 0
@@ -1695,6 +1755,7 @@ def correspond(ctx, model):
     timed("args", _corr_args, ctx)
     timed("attr", _corr_attr, ctx)
     timed("reuse", _corr_reuse, ctx)
+    timed("live-pair", _corr_live_pair, ctx)
     timed("trace", _corr_trace_time, ctx, model)
     timed("exhaustive", _corr_exhaustive, ctx, model)
     timed("mutation", _corr_mutation, ctx)
